@@ -118,7 +118,14 @@ void ThreadPool::clear() {
 }
 
 void ThreadPool::stop() {
-    m_isRunning = false;
+    {
+        // the workers evaluate `m_isRunning` in their wait predicate under the
+        // queue mutex: without it a worker that has just evaluated the
+        // predicate but not blocked yet would miss both the flag and the wake-up
+        std::scoped_lock locker(m_queueMutex);
+        m_isRunning = false;
+    }
+
     m_condition.notify_all();
 
     {
